@@ -9,6 +9,7 @@ import (
 	"go/ast"
 	"go/constant"
 	"go/token"
+	"go/types"
 	"sort"
 	"strings"
 
@@ -195,56 +196,129 @@ func (m *Model) RunPrefixKW(s *Sink, rule string) {
 // emits (writes or appends) the result of every element on every pass that
 // does not return.
 func (m *Model) RunEmit(s *Sink, rule string) {
+	// decided by evaluating each function on three abstract elements whose text is "<A>", "<B>", "<C>":
+	// the result must be the three texts in order (nothing dropped, duplicated or reordered).
+	htmlT, blockT := m.namedType("object", "HTML"), m.namedType("object", "Block")
+	progT, stmtT, blockStmtT := m.namedType("ast", "Program"), m.namedType("ast", "HTMLStmt"), m.namedType("ast", "BlockStmt")
+	if htmlT == nil || blockT == nil || progT == nil || stmtT == nil || blockStmtT == nil {
+		s.Undecided(rule, "emit anchors", "-", "object.HTML / object.Block / ast.Program / ast.HTMLStmt / ast.BlockStmt not found")
+		return
+	}
+	fieldOf := func(t *types.Named, name string) int {
+		st := t.Underlying().(*types.Struct)
+		for i := 0; i < st.NumFields(); i++ {
+			if canonFieldName(t, i, st.Field(i).Name()) == name {
+				return i
+			}
+		}
+		return -1
+	}
+	texts := []string{"<A>", "<B>", "<C>"}
+	mkElems := func() ([]any, map[*iStruct]string) {
+		var elems []any
+		txt := map[*iStruct]string{}
+		for _, t := range texts {
+			o := &iStruct{typ: htmlT, fields: map[int]any{}}
+			txt[o] = t
+			elems = append(elems, o)
+		}
+		return elems, txt
+	}
+	textOf := func(v any, txt map[*iStruct]string) (string, bool) {
+		switch x := v.(type) {
+		case constant.Value:
+			if x.Kind() == constant.String {
+				return constant.StringVal(x), true
+			}
+		case *iStruct:
+			// an object holding the text (HTML.Value) or the elements (Block.Elements)
+			if t, ok := txt[x]; ok {
+				return t, true
+			}
+			for _, fv := range x.fields {
+				if c, isC := fv.(constant.Value); isC && c.Kind() == constant.String {
+					return constant.StringVal(c), true
+				}
+				if sl, isSl := fv.(iSlice); isSl {
+					out := ""
+					for _, e := range sl.arr.elems[sl.lo:sl.high] {
+						es, ok := e.(*iStruct)
+						if !ok {
+							return "", false
+						}
+						out += txt[es]
+					}
+					return out, true
+				}
+			}
+		}
+		return "", false
+	}
 	type site struct {
-		pkg, typ, name string
-		emit           func(c ssa.CallInstruction) bool
+		key  string
+		fn   *ssa.Function
+		args func(elems []any) []any
 	}
-	isWrite := func(c ssa.CallInstruction) bool {
-		sc := c.Common().StaticCallee()
-		return sc != nil && (fnFullName(sc) == "(*bytes.Buffer).WriteString" || fnFullName(sc) == "(*strings.Builder).WriteString")
+	var sites []site
+	if fn := m.Method("object", "Block", "String"); fn != nil {
+		fe := fieldOf(blockT, "Elements")
+		sites = append(sites, site{"object.(*Block).String", fn, func(elems []any) []any {
+			return []any{&iStruct{typ: blockT, fields: map[int]any{fe: iSlice{&iArr{elems: elems}, 0, len(elems)}}}}
+		}})
 	}
-	isAppend := func(c ssa.CallInstruction) bool {
-		b, ok := c.Common().Value.(*ssa.Builtin)
-		return ok && b.Name() == "append"
-	}
-	for _, st := range []site{
-		{"evaluator", "Evaluator", "evalProgram", isWrite},
-		{"evaluator", "Evaluator", "evalBlockStmt", isAppend},
-		{"object", "Block", "String", isWrite},
-	} {
-		fn := m.Method(st.pkg, st.typ, st.name)
-		key := fmt.Sprintf("%s.(*%s).%s|every element is emitted in order", st.pkg, st.typ, st.name)
+	for _, name := range []string{"evalProgram", "evalBlockStmt"} {
+		fn := m.Method("evaluator", "Evaluator", name)
 		if fn == nil {
-			s.Undecided(rule, key, "-", "function not found")
+			s.Undecided(rule, "evaluator.(*Evaluator)."+name+"|every element is emitted in order", "-", "function not found")
 			continue
 		}
-		loops := naturalLoops(fn)
-		if len(loops) != 1 {
-			s.Undecided(rule, key, m.Pos(fn.Pos()), "expected exactly one loop, found %d", len(loops))
-			continue
+		holder := progT
+		if name == "evalBlockStmt" {
+			holder = blockStmtT
 		}
-		li := loops[0]
-		isRange := false
-		for _, in := range li.header.Instrs {
-			if phi, ok := in.(*ssa.Phi); ok && phi.Comment == "rangeindex" {
-				isRange = true
+		fs := fieldOf(holder, "Statements")
+		sites = append(sites, site{"evaluator.(*Evaluator)." + name, fn, func(elems []any) []any {
+			// the statements are abstract nodes; Eval of the i-th yields the i-th element
+			stmts := make([]any, len(elems))
+			for i := range elems {
+				stmts[i] = &iStruct{typ: stmtT, fields: map[int]any{-9: elems[i]}}
 			}
-		}
-		ci := m.newPassInfo(st.emit, func(*ssa.Call) bool { return false }, []*ssa.Function{fn}, nil)
-		skip := false
-		for _, l := range li.latch {
-			latch := l
-			if ci.pathAvoiding(fn, li.header, 0, func(b *ssa.BasicBlock) bool { return b == latch }, li.body) && !ci.blockConsumes(latch, 0) {
-				skip = true
+			return []any{iObj{"evaluator"}, &iStruct{typ: holder, fields: map[int]any{fs: iSlice{&iArr{elems: stmts}, 0, len(stmts)}}}, iObj{"env"}}
+		}})
+	}
+	for _, st := range sites {
+		key := st.key + "|every element is emitted in order"
+		elems, txt := mkElems()
+		ip := &Interp{m: m}
+		ip.call = func(c *ssa.Call, args []any) (any, bool) {
+			if isEvalCall(m, c) && len(args) >= 2 {
+				if n, ok := args[1].(*iStruct); ok {
+					return n.fields[-9], true
+				}
+				return nil, true
 			}
+			if c.Call.IsInvoke() && c.Call.Method.Name() == "String" && len(args) == 1 {
+				if o, ok := args[0].(*iStruct); ok {
+					if t, have := txt[o]; have {
+						return constant.MakeString(t), true
+					}
+				}
+			}
+			return nil, false
 		}
+		res, known := ip.Run(st.fn, st.args(elems))
+		got, okText := textOf(res, txt)
 		switch {
-		case !isRange:
-			s.Violation(rule, key, m.Pos(fn.Pos()), "the loop in %s is not an ascending range over the statements/elements", fnKey(fn))
-		case skip:
-			s.Violation(rule, key, m.Pos(fn.Pos()), "the loop in %s has a pass that reaches the next element without emitting the current one: text between constructs would be dropped", fnKey(fn))
+		case ip.stuck != "" || !known || !okText:
+			why := ip.stuck
+			for _, l := range ip.lost {
+				why += " " + fnKey(l) + " could not be evaluated"
+			}
+			s.Undecided(rule, key, m.Pos(st.fn.Pos()), "%s could not be evaluated on three abstract elements (%s)", fnKey(st.fn), why)
+		case got == strings.Join(texts, ""):
+			s.OK(rule, key, m.Pos(st.fn.Pos()), "case evaluation: three elements with texts <A>, <B>, <C> give <A><B><C>")
 		default:
-			s.OK(rule, key, m.Pos(fn.Pos()), "ascending range; every pass that continues writes/appends the element's result")
+			s.Violation(rule, key, m.Pos(st.fn.Pos()), "%s on three elements with texts <A>, <B>, <C> yields %q: an element's output is dropped, duplicated or out of order (text between constructs would be lost)", fnKey(st.fn), got)
 		}
 	}
 }
